@@ -625,6 +625,9 @@ pub fn c15_histories() -> Vec<History> {
             vec![Put(0, 0), Flush, Put(1, 0), Flush, Put(2, 0), Flush, Put(0, 0), Flush, Del(1), Flush, Compact(None, None), Put(1, 0), Reopen(0), Put(2, 0)],
         ),
         mk("multi-block-wal", "D", vec![Put(0, 0), BatchBig(vec![1, 2]), Put(0, 0), Del(2)]),
+        // the value of the second write carries the byte image of a complete log record (a batch
+        // `put f = GHOST`) where a reader that trusts a damaged length field would resume
+        mk("wal-value-embeds-a-log-record", "D", vec![Put(0, 0), Put(1, 11), Put(0, 0)]),
         mk("noreuse-manifest-snapshot", "T300n", vec![Put(0, 0), Flush, Put(1, 0), Flush, Reopen(0), Put(2, 0), Flush, Reopen(0), Put(0, 0)]),
         // files on six levels, a manifest with many trivial-move and compaction edits
         mk(
